@@ -7,6 +7,7 @@ CONSTANTS
   AnyOrder = FALSE
   NB = 2
   MaxOps = 5
+  Group = "none"
   Record = FALSE
   Slice = 0
   NSlices = 1
